@@ -141,7 +141,7 @@ def make_body(base, first_kind, nacts, size1, size2, want):
       applied, out = run_history(d, [ua], want - {"C06"})
       applied_all += applied
       for pid, msg in out:
-        viol.append({"pid": pid, "msg": msg, "history": list(uas)})
+        viol.append({"pid": pid, "msg": msg, "history": list(uas), "gbf": F.summary_groupby_formula(d.e)})
     perm = None
     if "C06" in want and applied_all:
       perm = h.int("perm", 1, NPERM)
@@ -286,7 +286,7 @@ def run(pid, tier, seed):
           continue
         msg = re.sub(r"0x[0-9a-f]+", "0x", v["msg"])
         sig = {"pid": pid, "fixture": a[1], "kinds_str": " ".join(u[0] + (":" + u[1] if str(u[1]).startswith("_grist_") else "") for u in v["history"]),
-               "msg": msg[:400], "history": json.dumps(v["history"], default=repr)}
+               "msg": msg[:400], "history": json.dumps(v["history"], default=repr), "groupby_formula": bool(v.get("gbf"))}
         kf = common.match_known(pid, sig, known)
         key = (kf["id"],) if kf else (sig["kinds_str"], re.sub(r"[\d.]+", "#", msg)[:90], a[1])
         if key not in cand:
